@@ -8,8 +8,9 @@ Parts
   run_roundtrip       load(save(doc)) == doc over writer entry points x input forms (file, bytes, decoded str;
                       re-encoded with/without BOM and declaration) x reader entry points; file names
   run_vocabulary      written XML uses the odML 1.1 element vocabulary only (stdlib ElementTree)
-  run_foreign_writer  XML produced by an independent serializer (5 spellings) in every input form loads to the
-                      document it describes
+  run_foreign_writer  XML produced by an independent serializer (8 spellings, 3 of them with a document type
+                      declaration and internal general entities) in every input form loads to the document it
+                      describes; entry points handed the same text return the same document
 
 The oracle is written from the property statement: own normalisation / comparison of independent
 snapshots (harness.snap_* read private fields), own 1.1 vocabulary table, own serializer.
@@ -667,6 +668,8 @@ def _chain(dim, value):
         return [value, xml_reader_mode(value), 'any']
     if dim == 'input':
         return [value, 'any-' + input_kind(value), 'any']
+    if dim == 'spelling' and value.startswith('entities-'):
+        return [value, 'any-entities', 'any']       # the spellings that use a document type declaration
     return [value, 'any']
 
 
@@ -1183,7 +1186,13 @@ def read_input(reader, data, path):
     return r, list(rd.warnings)
 
 
-def select_forms(full, k, base=('bytes:utf-8/decl', 'str:nodecl', 'str:decl=UTF-8')):
+BASE_FORMS = ('bytes:utf-8/decl', 'str:nodecl', 'str:decl=UTF-8')
+# XML declaration with standalone="yes": says that no declaration outside the document entity affects what the
+# document means - true for every input here, and worth saying where there is a document type declaration
+STANDALONE_FORMS = ('bytes:utf-8/decl-lowercase-single-quoted-standalone', 'str:decl=utf-8-single-quoted')
+
+
+def select_forms(full, k, base=BASE_FORMS):
     """All input forms, or the plain ones (base) plus a window of four that moves with the case number k."""
     if full:
         return list(FORMS)
@@ -1212,6 +1221,9 @@ class Cases(object):
         self.universe = []
         self.unreadable = set()
         self.orig_image = image(doc, True)
+        self.orig_frozen = frozen(self.orig_image)
+        self.groups = {}            # (source, content key) -> [(case, frozen image of the loaded document)]
+        self._last_key = (None, None)
 
     def note(self, case, check, feature, obj, field, detail):
         self.found.setdefault((check, feature, obj, field), {'cases': set(), 'detail': detail})['cases'].add(case)
@@ -1231,15 +1243,71 @@ class Cases(object):
             self.unreadable.add(case)
             self.note(case, 'reader-accepts', 'no-document-returned', '/', None, 'reader returned %r' % (loaded,))
             return
-        for d in doc_differences(self.doc, loaded, strip=True, orig_image=self.orig_image):
-            self.note(case, d['clause'], d['feature'], d['object'], d.get('field'), d['detail'])
+        got = image(loaded, True)
+        got_frozen = frozen(got)
+        diffs = []
+        if got_frozen != self.orig_frozen:
+            diffs = compare(self.orig_image, got)
+            if not diffs:       # guarded by whole-image equality so nothing is missed
+                diffs.append({'clause': 'snapshot-equal', 'feature': 'unclassified', 'object': '/',
+                              'detail': str(h.diff(self.orig_frozen, got_frozen))[:300]})
+            for d in diffs:
+                self.note(case, d['clause'], d['feature'], d['object'], d.get('field'), d['detail'])
+        self.groups.setdefault((source, self.content_key(data, input_label)), []).append(
+            (case, got_frozen, len(diffs)))
         if not styled and expect_no_warnings and '(strict)' in reader and warns:
             self.note(case, 'strict-no-warnings', 'warnings-on-1.1-xml', '/', None,
                       'strict reader warnings: %r' % (warns[:2],))
 
+    def content_key(self, data, input_label):
+        """Identifies the XML text an input holds: its characters after the byte order mark / XML declaration
+        (whose only job is to say how the bytes are to be decoded). Inputs with the same key are the same
+        bytes / the same text and what they are decoded to."""
+        if self._last_key[0] is data and data is not None:
+            return self._last_key[1]
+        raw = data
+        if raw is None:
+            try:
+                with open(self.path, 'rb') as f:
+                    raw = f.read()
+            except (IOError, OSError):
+                return ('input', input_label)
+        text = sniff_decode(raw) if isinstance(raw, bytes) else raw
+        key = ('input', input_label) if text is None else ('text', strip_decl(text.lstrip('\ufeff')))
+        self._last_key = (data, key)
+        return key
+
+    def check_agreement(self):
+        """Entry points that are handed the same bytes / the same text return the same document. (Every one of
+        them has to return the described document, so this follows from the other clauses; it is reported under
+        its own name because 'which entry point' is then the whole story.)"""
+        for (source, _key), members in self.groups.items():
+            if len(set(fz for _case, fz, _n in members)) < 2:
+                continue
+            # reference: the described document if some entry point returned it, else the returned document
+            # with the fewest differences to it (the first of those)
+            ref_case, ref, _n = min(members, key=lambda m: m[2])
+            off = [(case, fz) for case, fz, _n in members if fz != ref]
+            # one class per kind of deviating entry point (not per input form / reader: the same text was read)
+            kinds = set(input_kind(case[1]) for case, _fz in off)
+            modes = set(xml_reader_mode(case[2]) for case, _fz in off)
+            chain = _chain(self.source_dim, source)
+            cls = {'clause': 'entry-points-agree', 'feature': 'same-input-different-document',
+                   self.source_dim: chain[-2] if len(chain) > 2 else source,
+                   'input': 'any-' + kinds.pop() if len(kinds) == 1 else 'any',
+                   'reader': modes.pop() if len(modes) == 1 else 'any'}
+            case, fz = off[0]
+            self.agg.add(check='%s/entry-points-agree' % self.part, cls=cls,
+                         witness={'doc': self.label, 'cases': [list(case), list(ref_case)],
+                                  'deviating': len(off), 'same_text': len(members)},
+                         detail='%s (%s) and %s (%s) were handed the same XML text and returned different '
+                                'documents: %s; contract: %s' % (case[2], case[1], ref_case[2], ref_case[1],
+                                                                 str(h.diff(ref, fz))[:200], self.contract))
+
     def flush(self):
         dims = (self.source_dim, 'input', 'reader')
         readable = [c for c in self.universe if c not in self.unreadable]
+        self.check_agreement()
         for (check, feature, obj, field), info in self.found.items():
             # a case in which no document came back says nothing about the clauses on its content
             for lab in generalise_cases(info['cases'], self.universe if check == 'reader-accepts' else readable, dims):
@@ -1530,6 +1598,121 @@ def xml_text(text, style):
     return text.replace('&', '&amp;').replace('<', '&lt;').replace('>', '&gt;').replace('\r', '&#13;')
 
 
+# ---------------------------------------------------------------------------------------------
+# internal general entities: a document type declaration with an internal subset may declare entities,
+# and a reference &name; in content stands for the replacement text (XML 1.0, 4.1 / 4.4 / 4.5). Written from
+# the recommendation; what the text means is cross-checked with expat for every input (run_foreign_writer).
+# Only internal entities: nothing here makes a processor fetch anything (no external subset, no external or
+# parameter entities), so standalone="yes" is a true statement about these files.
+# ---------------------------------------------------------------------------------------------
+def entity_literal(text, alt=False):
+    """EntityValue (to go between double quotes) of an entity whose reference in content yields exactly the
+    character data `text`. Character references in a literal are expanded when the declaration is read, entity
+    references are kept and expanded when the replacement text is included (4.4.5, 4.4.7, appendix D), hence
+    the two spellings of the markup characters: &lt; (kept) and &#38;#60; (-> &#60; -> <)."""
+    out = []
+    for ch in text:
+        if ch == '&':
+            out.append('&#38;#38;' if alt else '&amp;')
+        elif ch == '<':
+            out.append('&#38;#60;' if alt else '&lt;')
+        elif ch == '>':
+            out.append('&#38;#62;' if alt else '&gt;')
+        elif ch == '%':
+            out.append('&#37;')                 # would start a parameter entity reference
+        elif ch == '"':
+            out.append('&#34;')                 # the delimiter
+        elif ch == '\r':
+            out.append('&#38;#13;')             # as a character reference when included: no line end handling
+        else:
+            out.append(ch)
+    return ''.join(out)
+
+
+class EntitySpelling(object):
+    """Spells character data with references to internal general entities and collects the declarations.
+    plan: 'whole'  the whole text of every element is one reference (equal texts share one entity)
+          'parts'  leading / trailing / inner part, several references side by side, a reference to an entity
+                   with empty replacement text - moving with the number of the text
+          'nested' the replacement text of the referenced entity refers to further entities (2 or 3 levels),
+                   declared before or after the entity that refers to them"""
+
+    def __init__(self, plan):
+        self.plan = plan
+        self.names = {}
+        self.decls = []         # (name, literal) in the order of declaration
+        self.count = 0
+
+    def ref(self, text, literal=None, key=None, at=None):
+        if text == '':
+            return ''
+        key = ('text', text) if key is None else key
+        if key not in self.names:
+            name = 'e%d' % len(self.names)
+            self.names[key] = name
+            lit = entity_literal(text, alt=len(self.names) % 2 == 0) if literal is None else literal
+            self.decls.insert(len(self.decls) if at is None else at, (name, lit))
+        return '&%s;' % self.names[key]
+
+    def nested(self, parts, level):
+        """Reference to an entity for ''.join(parts) whose replacement text holds the middle part as a reference
+        (itself nested while level > 1); the outer entity is declared before the inner one for every other text."""
+        head, mid, tail = parts
+        text = head + mid + tail
+        key = ('nested', level, text)
+        if text == '' or key in self.names:
+            return self.ref(text, key=key)
+        at = len(self.decls) if self.count % 2 else None
+        if level > 1 and len(mid) > 1:
+            inner = self.nested((mid[:len(mid) // 2], mid[len(mid) // 2:], ''), level - 1)
+        else:
+            inner = self.ref(mid)
+        return self.ref(text, literal=entity_literal(head) + inner + entity_literal(tail, alt=True), key=key, at=at)
+
+    def spell(self, text):
+        k = self.count
+        self.count += 1
+        if text == '':
+            return ''
+        if self.plan == 'whole':
+            return self.ref(text)
+        a, b = len(text) // 3, (2 * len(text) + 2) // 3
+        head, mid, tail = text[:a], text[a:b], text[b:]
+        esc = lambda t: xml_text(t, 'escaped')                              # noqa: E731
+        if self.plan == 'nested':
+            return self.nested((head, mid, tail), 1 + (k // 2) % 2)
+        pattern = k % 5
+        if pattern == 0:
+            return self.ref(head + mid) + esc(tail)
+        if pattern == 1:
+            return esc(head) + self.ref(mid + tail)
+        if pattern == 2:
+            return esc(head) + self.ref(mid) + esc(tail)
+        if pattern == 3:
+            return self.ref(head) + self.ref(mid) + self.ref(tail)
+        return esc(head) + '&nil;' + self.ref(mid) + '&nil;' + esc(tail)     # nil: declared in every subset
+
+    def doctype(self, extras, attribute_entity):
+        lines = ['<!DOCTYPE odML [']
+        if extras:
+            # what else an internal subset may hold without changing the document a non-validating processor
+            # reports: comment, processing instruction, element / attribute-list / notation declarations
+            # (no default values), an entity nobody refers to
+            lines += ['  <!-- internal subset written by another tool: < & > -->',
+                      '  <?tool keep="entities"?>',
+                      '  <!ELEMENT value (#PCDATA)>',
+                      '  <!ATTLIST odML version CDATA #REQUIRED>',
+                      '  <!NOTATION plain PUBLIC "text/plain">',
+                      '  <!ENTITY unused "never referenced &amp; harmless">']
+        lines.append('  <!ENTITY nil "">')
+        if attribute_entity:
+            lines.append('  <!ENTITY fv "%s">' % FORMAT_VERSION_11)
+        for name, lit in self.decls:
+            lines.append('  <!ENTITY %s "%s">' % (name, lit))
+        lines.append(']>')
+        return '\n'.join(lines) + '\n'
+
+
 # name -> (text style, indented, comments and processing instruction, reordered, CR LF line ends)
 VARIANTS = {
     'escaped/compact': ('escaped', False, False, False, False),
@@ -1537,23 +1720,33 @@ VARIANTS = {
     'cdata/indented': ('cdata', True, False, False, False),
     'charref/compact+reordered': ('charref', False, False, True, False),
     'escaped/indented+crlf': ('escaped', True, False, False, True),
+    # document type declaration with internal general entities (style 'entity-<plan>', see EntitySpelling);
+    # 'comments' here also fills the internal subset with the other declarations it may hold
+    'entities-whole/compact': ('entity-whole', False, False, False, False),
+    'entities-parts/indented+comments+pi+subset-declarations': ('entity-parts', True, True, False, False),
+    'entities-nested/compact+reordered+version-attribute': ('entity-nested', False, False, True, False),
 }
+ENTITY_VARIANTS = [v for v in VARIANTS if v.startswith('entities-')]
+PLAIN_VARIANTS = [v for v in VARIANTS if not v.startswith('entities-')]
 
 
 def foreign_body(doc, variant):
-    """Independent odML 1.1 XML serializer (own code, private fields only): root element without declaration."""
+    """Independent odML 1.1 XML serializer (own code, private fields only): root element without declaration
+    (entity spellings: preceded by the document type declaration)."""
     style, indented, comments, reordered, crlf = VARIANTS[variant]
+    entities = EntitySpelling(style[len('entity-'):]) if style.startswith('entity-') else None
+    version_by_entity = entities is not None and entities.plan == 'nested'
     out = []
 
     def emit(node, depth):
         tag, text, children = node
         pad = '\n' + '  ' * depth if indented else ''
         if tag == 'odML':
-            out.append('<odML version="%s">' % FORMAT_VERSION_11)
+            out.append('<odML version="%s">' % ('&fv;' if version_by_entity else FORMAT_VERSION_11))
         else:
             out.append('%s<%s>' % (pad, tag))
         if text is not None:
-            out.append(xml_text(text, style))
+            out.append(entities.spell(text) if entities else xml_text(text, style))
         for i, child in enumerate(children):
             if comments and child[0] in ('section', 'property', 'value') and i % 2 == 0:
                 out.append('%s  <!-- a comment: é < & > -->' % pad)
@@ -1564,7 +1757,10 @@ def foreign_body(doc, variant):
 
     if comments:
         out.append('<?xml-stylesheet type="text/xsl" href="other.xsl"?>\n<!-- written by another tool -->\n')
+    prolog = len(out)
     emit(foreign_tree(doc, reordered), 0)
+    if entities:
+        out.insert(prolog, entities.doctype(extras=comments, attribute_entity=version_by_entity))
     if comments:
         out.append('\n<!-- end -->')
     body = ''.join(out) + '\n'
@@ -1589,13 +1785,15 @@ def tree_image(node):
 
 
 def select_variants(rich, k, tier):
-    """All spellings for the fixed documents; for a generated one the plain spelling and one (thorough tier: two)
-    of the others, moving with the document number."""
-    names = list(VARIANTS)
+    """Fixed documents: all spellings (quick tier: all spellings without a document type declaration and one of
+    those with entities); a generated document: the plain spelling, one (thorough tier: two) of the others without
+    and, every other document, one with entities. The choice moves with the document number."""
     if rich:
-        return names
-    others = names[1:]
-    return [names[0]] + [others[(k + j) % len(others)] for j in range(1 if tier == 'quick' else 2)]
+        ents = [ENTITY_VARIANTS[(k + j) % len(ENTITY_VARIANTS)] for j in range(len(ENTITY_VARIANTS))]
+        return PLAIN_VARIANTS + (ents[:1] if tier == 'quick' else ents)
+    others = PLAIN_VARIANTS[1:]
+    ents = [ENTITY_VARIANTS[(k // 2) % len(ENTITY_VARIANTS)]] if k % 2 == 0 else []
+    return [PLAIN_VARIANTS[0]] + [others[(k + j) % len(others)] for j in range(1 if tier == 'quick' else 2)] + ents
 
 
 def run_foreign_writer(tier, seed):
@@ -1603,13 +1801,18 @@ def run_foreign_writer(tier, seed):
         'C01.xml_foreign_writer',
         rule='every document of the round-trip generator serialised by an independent writer (1.1 vocabulary, values '
              'in the documented syntax) in %d spellings (text escaped / CDATA / character references; compact / '
-             'indented / CR LF line ends; comments and a processing instruction; other element order) x %d input '
+             'indented / CR LF line ends; comments and a processing instruction; other element order; document type '
+             'declaration with internal general entities: whole element texts, leading / inner / trailing parts, '
+             'adjacent references, empty replacement text, markup characters in replacement text as &lt; and as '
+             '&#38;#60;, entities nested 2-3 levels declared before / after use, other declarations in the internal '
+             'subset, the version attribute through an entity; all of them also with standalone="yes") x %d input '
              'forms (utf-8 / iso-8859-1 / iso-8859-15 / windows-1252 / us-ascii / utf-16 le+be, with/without BOM '
              'and declaration, as bytes and as decoded str whatever its declaration says; characters outside the '
              'encoding as character references) x the reader entry points of that kind (9 for bytes, 3-5 for str); '
              'all combinations for the fixed documents, a moving window for the generated ones; every input is first '
-             'parsed with xml.etree (expat) and must describe the tree that was serialised; distinct = (document '
-             'content signature, spelling, input form, reader)' % (len(VARIANTS), len(FORMS)), exhaustive=False)
+             'parsed with xml.etree (expat) and must describe the tree that was serialised; the documents returned '
+             'for inputs that hold the same text are compared with each other; distinct = (document content '
+             'signature, spelling, input form, reader)' % (len(VARIANTS), len(FORMS)), exhaustive=False)
     agg = Agg(col)
     work = fresh_workdir('c01_foreign')
     path = os.path.join(work, 'doc.xml')
@@ -1618,15 +1821,17 @@ def run_foreign_writer(tier, seed):
         for n_doc, (label, doc, rich) in enumerate(c01_documents(tier, seed)):
             sig = doc_signature(doc)
             cases = Cases(col, agg, 'C01.xml_foreign_writer', doc, label, sig, path, 'spelling', contract)
-            for n_v, variant in enumerate(select_variants(rich, n_doc, tier)):
+            variants = select_variants(rich, n_doc, tier)
+            for n_v, variant in enumerate(variants):
                 body = foreign_body(doc, variant)
                 described = tree_image(foreign_tree(doc, VARIANTS[variant][3]))
                 # sanity of my own writer: vocabulary-conformant
                 own = vocabulary_problems(StdET.fromstring(body), styled=False)
                 if own:
                     raise AssertionError('foreign writer is not 1.1 conformant: %r' % (own[:3],))
-                full = wants_all_forms(tier, rich, body, n_doc, n_v, len(VARIANTS))
-                for form in select_forms(full, n_doc * len(VARIANTS) + n_v):
+                full = wants_all_forms(tier, rich, body, n_doc, n_v, len(variants))
+                base = BASE_FORMS + (STANDALONE_FORMS if rich and variant in ENTITY_VARIANTS else ())
+                for form in select_forms(full, n_doc * len(VARIANTS) + n_v, base=base):
                     if VARIANTS[variant][0] == 'cdata' and not form.fits(body):
                         continue        # no character references inside CDATA
                     data = form.build(body)
